@@ -121,6 +121,9 @@ fn route_for(host: u64, conn: u16, port: u16) -> ClientRoute {
 }
 
 pub struct WorkerRig {
+    /// Every state `published_ptr` has seen, kept alive so that the address of a later state can
+    /// never coincide with the address of one seen before (no ABA in the caller's comparison).
+    seen_states: std::sync::Mutex<Vec<Arc<ClusterState>>>,
     translator: Option<Arc<ClientRoutesAddressTranslator>>,
     updates: merge_channel::Sender<MetadataUpdate>,
     state: Arc<ArcSwap<ClusterState>>,
@@ -231,6 +234,7 @@ impl WorkerRig {
         tokio::spawn(fut);
 
         WorkerRig {
+            seen_states: std::sync::Mutex::new(Vec::new()),
             translator,
             updates: metadata_updates_sender,
             state: cluster_state,
@@ -451,7 +455,13 @@ impl WorkerRig {
 
     /// Address of the published state object (changes whenever a new state is published).
     pub fn published_ptr(&self) -> usize {
-        Arc::as_ptr(&self.state.load_full()) as usize
+        let state = self.state.load_full();
+        let ptr = Arc::as_ptr(&state) as usize;
+        let mut seen = self.seen_states.lock().unwrap();
+        if !seen.iter().any(|s| Arc::ptr_eq(s, &state)) {
+            seen.push(state);
+        }
+        ptr
     }
 
     /// Refresh requests resolved since the last call: (answered Ok, answered Err, dropped
